@@ -972,6 +972,49 @@ fn key_kinds(threads: usize, only: Option<&Value>) -> Stats {
     })
 }
 
+/// After user-supplied code panicked once (a suffix provider that panics on its first call; the
+/// embedder catches the unwind, or the thread that ran it dies), the same verifier answers every
+/// later call as before - it never panics on its own account.
+struct PanicsOnce(std::sync::atomic::AtomicBool);
+impl public_suffix::EffectiveTLDProvider for PanicsOnce {
+    fn effective_tld_plus_one<'a>(&self, domain: &'a str) -> Result<&'a str, public_suffix::Error> {
+        if !self.0.swap(true, std::sync::atomic::Ordering::SeqCst) {
+            panic!("injected: the suffix provider panicked");
+        }
+        public_suffix::DEFAULT_PROVIDER.effective_tld_plus_one(domain)
+    }
+}
+fn after_provider_panic(other_thread: bool) -> Vec<(String, String)> {
+    let v = std::sync::Arc::new(RpIdVerifier::new(PanicsOnce(Default::default())));
+    let v2 = v.clone();
+    let first = move || {
+        let u = url::Url::parse("https://www.example.com").unwrap();
+        let o: Origin = (&u).into();
+        let _ = v2.assert_domain(&o, Some("example.com"));
+    };
+    if other_thread {
+        let _ = std::thread::spawn(first).join();
+    } else {
+        let _ = par::catch(first);
+    }
+    let mut out = vec![];
+    for rp in ["example.com", "co.uk", "www.example.com", "localhost", ""] {
+        let v3 = v.clone();
+        let r = par::catch(move || {
+            let u = url::Url::parse("https://www.example.com").unwrap();
+            let o: Origin = (&u).into();
+            (v3.is_valid_rp_id(rp), v3.assert_domain(&o, Some(rp)).is_ok())
+        });
+        let want = (rp == "example.com" || rp == "www.example.com", rp == "example.com" || rp == "www.example.com");
+        match r {
+            Err(p) => out.push((format!("decoder=RpIdVerifier(after provider panic)/site={}/kind={}", site_file(&p), panic_class(&p)), format!("after the suffix provider panicked once ({}), checking RP ID {rp:?} on the same verifier panics: {p}", if other_thread { "on a thread that died" } else { "caught by the caller" }))),
+            Ok(got) if got != want => out.push(("decoder=RpIdVerifier(after provider panic)/kind=answer-changed".into(), format!("after the suffix provider panicked once, RP ID {rp:?} is answered {got:?}, expected {want:?}"))),
+            Ok(_) => {}
+        }
+    }
+    out
+}
+
 /// Lists with repeated entries: every sequence over three credential ids (with differing transports
 /// hints) of length 0..=5 (thorough 6) as allowCredentials / excludeCredentials of the WebAuthn JSON
 /// options and as allowList / excludeList of the CTAP2 CBOR requests - well-formed input; code that
@@ -1132,6 +1175,12 @@ pub fn run(ctx: &Ctx) -> Result<Run, String> {
             }
         }
     }
+    for other_thread in [false, true] {
+        stats.case(&("after-provider-panic", other_thread), true, "after-user-code-panic");
+        for (k, d) in after_provider_panic(other_thread) {
+            stats.finding(Finding::new(k, d, json!({"after_provider_panic": other_thread})));
+        }
+    }
     let re = repeated_entries(ctx.tier, ctx.threads, None);
     stats.count("repeated_entry_lists", re.evaluations);
     stats.merge(re);
@@ -1157,7 +1206,7 @@ pub fn run(ctx: &Ctx) -> Result<Run, String> {
     let ndec = sp.decs.len();
     let mut run = Run::from_stats(
         "exploration",
-        "for each of 28 public decoders (CTAP2 CBOR messages, authenticator data, WebAuthn JSON, base64, U2F raw messages, COSE-key converter, fingerprints, asset links, RP-ID verification, public-suffix lookups): (1) all byte strings up to length 2 (3 thorough) / all strings over an 8-symbol alphabet up to length 5 (7 thorough); (2) every single deviation of valid seed encodings of every message type: truncation at every position, every byte value at every position (CBOR/binary; a 17-symbol menu for JSON/text), and splices at every position of CBOR heads of every major type with declared lengths 2^8..2^64-1 / indefinite, 300- and 100000-deep nesting, JSON structure/number/escape fragments, long and dotted labels (thorough: all pairs of byte-level deviations on short seeds); run in isolated worker processes with a counting allocator (single request > 4 MiB + 32 x input length, or > 256 MiB in total = out of proportion; > 1 GiB refused), 8 MiB stack, per-case watchdog; (2c) well-formed base64 / base64url text, padded or not, of every decoded length 0..4200 (thorough 20000) through Bytes::try_from, try_from_base64url and a JSON Bytes member (must decode to the bytes; no panic at any size boundary); (2f) allow / exclude lists that are every sequence over three ids of length 0..5 (thorough 6), with mixed transports hints, through the JSON option parsers (text and owned value) and the CBOR request decoders; (2e) every name derived from a rule of the shipped list (as-is, wildcard instantiations, parent, sibling, 1..12 further labels in front) through the three lookups and the RP-ID verifier; (2d) key kinds: for the richest seed of every CBOR decoder and every map in it (top level and nested), and for authenticator data with ED resp. AT+ED, every ordered pair of added keys from 19 kinds (small/large/negative integers, text, bytes, floats incl. NaN, -0.0 and infinity, booleans, null, empty array, empty map, tag), in front and at the end - well-formed input, the decoder must return; (2b) COSE keys built as structs (0..2 entries per coordinate from a menu of lengths and types, three label orders, repeated labels included) given to the converter directly; (4) scaling families: 14 well-formed message shapes whose collection (PRF per-credential map, allow/exclude list, parameter list, unknown members, COSE parameters, JSON lists and maps, base64 text) grows to 256, 1024, 4096, 16384 (thorough: 65536) elements, with ids/keys that differ only at the front, only at the end or only in the middle, decoded in isolated workers: 4x the elements may not cost more than 9x the CPU time (judged once the larger run exceeds 10 ms, confirmed by a second measurement) nor an allocation out of proportion; (3b) CTAPHID with 1..300 (4096) channels transmitting at once; (3) CTAPHID: BFS over packet sequences on the real ChannelHandler (alphabet: 2 channels x 8 init heads + 4 continuation sequence numbers x 13 packet sizes), deduplicated on the hook snapshot. Non-trivial = distinct non-empty input",
+        "for each of 28 public decoders (CTAP2 CBOR messages, authenticator data, WebAuthn JSON, base64, U2F raw messages, COSE-key converter, fingerprints, asset links, RP-ID verification, public-suffix lookups): (1) all byte strings up to length 2 (3 thorough) / all strings over an 8-symbol alphabet up to length 5 (7 thorough); (2) every single deviation of valid seed encodings of every message type: truncation at every position, every byte value at every position (CBOR/binary; a 17-symbol menu for JSON/text), and splices at every position of CBOR heads of every major type with declared lengths 2^8..2^64-1 / indefinite, 300- and 100000-deep nesting, JSON structure/number/escape fragments, long and dotted labels (thorough: all pairs of byte-level deviations on short seeds); run in isolated worker processes with a counting allocator (single request > 4 MiB + 32 x input length, or > 256 MiB in total = out of proportion; > 1 GiB refused), 8 MiB stack, per-case watchdog; (2c) well-formed base64 / base64url text, padded or not, of every decoded length 0..4200 (thorough 20000) through Bytes::try_from, try_from_base64url and a JSON Bytes member (must decode to the bytes; no panic at any size boundary); (2g) an RP-ID verifier whose user-supplied suffix provider panicked once (unwind caught, or on a thread that died) answers five further RP IDs without panicking and as before; (2f) allow / exclude lists that are every sequence over three ids of length 0..5 (thorough 6), with mixed transports hints, through the JSON option parsers (text and owned value) and the CBOR request decoders; (2e) every name derived from a rule of the shipped list (as-is, wildcard instantiations, parent, sibling, 1..12 further labels in front) through the three lookups and the RP-ID verifier; (2d) key kinds: for the richest seed of every CBOR decoder and every map in it (top level and nested), and for authenticator data with ED resp. AT+ED, every ordered pair of added keys from 19 kinds (small/large/negative integers, text, bytes, floats incl. NaN, -0.0 and infinity, booleans, null, empty array, empty map, tag), in front and at the end - well-formed input, the decoder must return; (2b) COSE keys built as structs (0..2 entries per coordinate from a menu of lengths and types, three label orders, repeated labels included) given to the converter directly; (4) scaling families: 14 well-formed message shapes whose collection (PRF per-credential map, allow/exclude list, parameter list, unknown members, COSE parameters, JSON lists and maps, base64 text) grows to 256, 1024, 4096, 16384 (thorough: 65536) elements, with ids/keys that differ only at the front, only at the end or only in the middle, decoded in isolated workers: 4x the elements may not cost more than 9x the CPU time (judged once the larger run exceeds 10 ms, confirmed by a second measurement) nor an allocation out of proportion; (3b) CTAPHID with 1..300 (4096) channels transmitting at once; (3) CTAPHID: BFS over packet sequences on the real ChannelHandler (alphabet: 2 channels x 8 init heads + 4 continuation sequence numbers x 13 packet sizes), deduplicated on the hook snapshot. Non-trivial = distinct non-empty input",
         true,
         stats,
     );
@@ -1197,6 +1246,9 @@ pub fn replay(_ctx: &Ctx, case: &Value) -> Result<Vec<Finding>, String> {
     }
     if let Some(n) = case.get("rule_name").and_then(|n| n.as_str()) {
         return Ok(rule_name_one(n).map(|p| Finding::new(format!("decoder=public-suffix(rule-derived-name)/site={}/kind={}", site_file(&p), panic_class(&p)), format!("lookup of {n:?} panicked: {p}"), case.clone())).into_iter().collect());
+    }
+    if let Some(t) = case.get("after_provider_panic").and_then(|t| t.as_bool()) {
+        return Ok(after_provider_panic(t).into_iter().map(|(k, d)| Finding::new(k, d, case.clone())).collect());
     }
     if case.get("repeated_entries").is_some() {
         let st = repeated_entries(Tier::Thorough, 1, Some(case));
